@@ -53,44 +53,96 @@ def run(ctx, rep):
     f = ctx.fn('rename_all_to_case', file='parser.rs')
     site = {'file': f['file'], 'line': f['line']}
     inp = f['params'][0]['name']
-    # dispatch table: every match arm of the function whose pattern names a string literal ("x" or Some("x")) maps that
-    # rule name to the arm's body; arms without a literal (None, _, Some(_) | None, Some(other)) are the fall-through
-    arms, plain, all_arms = {}, [], []
-    for m in f['matches']:
-        for a in m['arms']:
-            all_arms.append(a)
-            names = re.findall(r'"([^"]*)"', a['pat'])
-            for n in names:
-                arms.setdefault(n, []).append(a)
-            if not names:
-                plain.append(a)
-    if not arms:
-        raise core.Incomplete('rename_all_to_case: no match arm over rule-name literals found')
+    # dispatch table, asked of the function itself (vlib/special.py): under "the rule is Some(r)" what does it return?  One
+    # match arm per literal, a constant table of (name, conversion) pairs searched with `find`, early returns — all the same
+    from .. import special
+    rule_p = f['params'][1]['name']
+    G = ctx.x(f)
+
+    def is_rule_option(v):
+        # the `case` parameter itself (possibly through as_deref / as_ref)
+        v = vt.unvar(v)
+        while isinstance(v, dict) and (v.get('k') in ('ref', 'deref', 'paren') or (v.get('k') == 'call' and v.get('recv') is not None and v.get('f') in ('as_deref', 'as_ref', 'cloned', 'clone') and not v.get('args'))):
+            v = vt.unvar(v.get('v') if v.get('k') != 'call' else v['recv'])
+        return isinstance(v, dict) and v.get('k') == 'atom' and v.get('root') == rule_p and not v.get('path')
+
+    def is_rule_name(v):
+        # the string inside it: payload of Some / element handed to an Option adaptor's closure, through as_str & co.
+        d = 0
+        while isinstance(v, dict) and d < 16:
+            d += 1
+            if v.get('k') == 'var' or v.get('k') in ('ref', 'deref', 'paren'):
+                v = v.get('v')
+            elif v.get('k') == 'call' and v.get('recv') is not None and v.get('f') in ('as_str', 'as_ref', 'as_deref', 'clone', 'to_string', 'to_owned', 'borrow') and not v.get('args'):
+                v = v['recv']
+            elif v.get('k') == 'payload' and str(v.get('variant', '')).split('::')[-1] == 'Some':
+                return is_rule_option(v.get('of'))
+            elif v.get('k') == 'elem':
+                return is_rule_option(v.get('of'))
+            else:
+                return False
+        return False
+
+    def is_input(v):
+        v = vt.unvar(v)
+        while isinstance(v, dict) and (v.get('k') in ('ref', 'deref', 'paren') or (v.get('k') == 'call' and v.get('recv') is not None and v.get('f') in ('as_str', 'clone', 'to_owned', 'to_string', 'as_ref') and not v.get('args'))):
+            v = vt.unvar(v.get('v') if v.get('k') != 'call' else v['recv'])
+        return isinstance(v, dict) and v.get('k') == 'atom' and v.get('root') == inp and not v.get('path')
+
+    def conversion(o):
+        """name of the function applied to the input: `input.to_x()` or `Path::to_x(&input)`; '' for the input itself"""
+        o = vt.unvar(o)
+        if is_input(o):
+            return ''
+        if isinstance(o, dict) and o.get('k') == 'call':
+            if o.get('recv') is not None and not o.get('args') and is_input(o['recv']):
+                return str(o.get('f'))
+            if o.get('recv') is None and len(o.get('args', [])) == 1 and is_input(o['args'][0]):
+                return str(o.get('f', '')).replace(' ', '').split('::')[-1]
+        return None
+
+    def under(rule_name):
+        specs = [special.OptSpec(is_rule_option, rule_name is not None)]
+        if rule_name is not None:
+            specs.append(special.KeySpec(is_rule_name, rule_name))
+        return special.outcomes(G, specs)
+    # literals the function compares the rule name with (match arms, `==`, constant tables)
+    known = set()
+    for m in G.get('matches', []):
+        if is_rule_name(m.get('scrut')):
+            known |= {x for a in m['arms'] for x in special._lits(a.get('variants', []))}
+    for x in (y for L in ('calls', 'lets', 'returns') for it in G.get(L, []) for y in vt.walk(it if L != 'calls' else dict(it, k='call'))):
+        if x.get('k') == 'call' and x.get('f') in ('find', 'contains', 'any', 'position') and x.get('recv') is not None:
+            keys = special._table_keys(special._const_items(x['recv']))
+            if keys and any(is_rule_name(z) for z in vt.walk(x)):
+                known |= set(keys)
+    for x in vt.walk(G.get('tail') or {}):
+        if x.get('k') == 'call' and x.get('f') in ('find', 'contains', 'any', 'position') and x.get('recv') is not None:
+            keys = special._table_keys(special._const_items(x['recv']))
+            if keys and any(is_rule_name(z) for z in vt.walk(x)):
+                known |= set(keys)
+    if not known:
+        raise core.Incomplete('rename_all_to_case: no comparison of the rule name with string literals found (match arms / constant table)')
     for r in rules:
-        al = arms.get(r, [])
         key = f'rule:{r}'
-        if not al:
+        outs = under(r)
+        convs = [conversion(o) for o in outs]
+        want = EXPECT.get(r, ())
+        if r not in known:
             rep.fail('E1', key, f'rename_all_to_case has no arm for serde\'s rule "{r}": names under that rule stay unchanged while serde renames them', site)
             continue
-        guarded = [a for a in al if a.get('guard')]
-        if guarded or len(al) > 1:
-            rep.fail('E1', key, f'rule "{r}" is handled by a guarded / by several arms (`{vt.show(guarded[0]["guard"])[:70] if guarded else ""}`): for some identifiers the rule is not applied — serde applies a rule to every identifier of its position', {'file': f['file'], 'line': (guarded or al)[0]['line']})
+        if len(outs) != 1:
+            rep.fail('E1', key, f'rule "{r}" is handled by a guarded / by several arms ({[vt.show(o)[:40] for o in outs]}): for some identifiers the rule is not applied — serde applies a rule to every identifier of its position', site)
             continue
-        body = al[0]['body'].replace(' ', '')
-        want = EXPECT.get(r, ())
-        ok = any(body == f'{inp}.{w}()' for w in want)
-        rep.check(ok, 'E1', key, f'"{r}" → {body}', f'rule "{r}" is mapped to `{al[0]["body"][:60]}` — expected {inp}.{want[0]}() (the conversion of that name applied to the input)', {'file': f['file'], 'line': al[0]['line']})
-    extra = [n for n in arms if n not in rules]
+        ok = convs[0] in want
+        rep.check(ok, 'E1', key, f'"{r}" → {convs[0]}', f'rule "{r}" is mapped to `{vt.show(outs[0])[:60]}` — expected {inp}.{want[0]}() (the conversion of that name applied to the input)', site)
+    extra = sorted(n for n in known if n not in rules and [conversion(o) for o in under(n)] != [''])
     rep.check(not extra, 'E1', 'no-extra-rules', 'no rule names beyond serde\'s', f'rename_all_to_case knows rule names serde does not: {extra}', site)
-    # E2: every fall-through arm (no rule / unknown rule) returns the input itself; an arm that merely forwards to a
-    # nested match (the Some(value) => match value.as_str() {..} form) is not a fall-through
-    inner_texts = [a['body'].replace(' ', '') for a in plain]
-    fall = [a for a in plain if not a['body'].lstrip().startswith('match')]
-    covers_none = any('None' in a['variants'] for a in fall)
-    covers_unknown = any('_' in a['variants'] or re.search(r'Some\s*\(\s*_\s*\)', a['pat']) for a in fall)
-    ident = all(a['body'].replace(' ', '') == inp and not a.get('guard') for a in fall)
-    rep.check(covers_unknown and ident, 'E2', 'unknown-rule-identity', 'unknown rule ⇒ input unchanged', f"an unknown rule does not yield the unchanged name: {[a['pat'] + ' => ' + a['body'][:40] for a in fall]}", site)
-    rep.check(covers_none and ident, 'E2', 'no-rule-identity', 'no rule ⇒ input unchanged', f"without a rename_all rule the name is not returned unchanged: {[a['pat'] + ' => ' + a['body'][:40] for a in fall]}", site)
+    # E2: no rule / an unknown rule returns the input itself
+    unk = under('no-such-rule-name')
+    rep.check(bool(unk) and all(conversion(o) == '' for o in unk), 'E2', 'unknown-rule-identity', 'unknown rule ⇒ input unchanged', f"an unknown rule does not yield the unchanged name: {[vt.show(o)[:50] for o in unk]}", site)
+    non = under(None)
+    rep.check(bool(non) and all(conversion(o) == '' for o in non), 'E2', 'no-rule-identity', 'no rule ⇒ input unchanged', f"without a rename_all rule the name is not returned unchanged: {[vt.show(o)[:50] for o in non]}", site)
     # E3 (MIR)
     prog = cg.Program(ctx.mirq('all'))
     cr = cg.CtxReach(prog)
